@@ -38,6 +38,7 @@ func genAddr(r *rng, seed uint64) *plan.Plan {
 				c.DialForm = "ip4" // '@' is for stream-based upstreams only
 			}
 		}
+		c.DialDown = c.DialForm != "" && r.p(0.2)
 		p.Addr = append(p.Addr, c)
 	}
 	return p
